@@ -23,6 +23,10 @@ var c18Queries = []struct {
 	{"log-pipeline", `{container=~"c.*"} | logfmt | v != "3"`, true},
 	{"log-collide", `{a_b=~".+"}`, true},
 	{"log-grouped", `{container=~"c.*"} | drop msg`, true},
+	// streams that lost the label the renderer names them by: whatever it prints instead, it prints every time
+	{"log-unnamed", `{container=~"c.*"} | drop container`, true},
+	{"log-renamed", `{container=~"c.*"} | label_format ctr=container | drop msg`, true},
+	{"log-kept", `{container=~"c.*"} | keep a_b, tier, container_id`, true},
 	{"range", `count_over_time({container=~"c.*"}[3s])`, false},
 	{"range-unwrap", `sum_over_time({container=~"c.*"} | logfmt | unwrap v [4s])`, false},
 	{"grouped", `sum by (container) (count_over_time({container=~"c.*"}[3s]))`, false},
@@ -435,9 +439,22 @@ func runC18(r *vk.Run) {
 				failing := 0
 				for i, fc := range fd.Containers {
 					if i < 2 || c.Rng.Bool() {
-						fc.LogsErr = errC14
+						// refusals of different classes (gone, dead, unreadable driver, ...): whichever of them
+						// completes first, the query has failed
+						fc.LogsErr = c14OpenErrs[(rep+i*3+failing)%len(c14OpenErrs)]
 						failing++
 					}
+				}
+				if n <= 4 {
+					// the completion order of the n requests is forced, a different one each repetition
+					perms := permutations(n)
+					perm := perms[rep%len(perms)]
+					ids := make([]string, n)
+					for i, o := range perm {
+						ids[i] = inv[o].ID
+					}
+					newOrderGate(ids).attach(fd)
+					c.Seen("multifail_forced_orders", fmt.Sprintf("n%d:%v", n, perm))
 				}
 				_, err := evalRaw(fd, `{container=~".+"}`, EvalP{Start: c14T0, End: c14T0 + 10e9, Step: 2 * time.Second, Limit: -1})
 				c.Eval(1)
